@@ -365,6 +365,7 @@ func rulesC09(c *Ctx) {
 	dispatchC09(c)
 	bindKindsC09(c)
 	bindExactC09(c)
+	floatModeZeroC09(c)
 	c.Rule("C09.pure", "Reduce and everything it calls in the package read no mutable package-level state: the fold of an expression depends on the expression and the valuer only (a memo of parsed time strings, say, would answer with the instant computed for another zone)")
 	pureRule(c, "C09.pure", "Reduce", "reduce")
 	copyLiteralRule(c, "C09.copylit", func(name string) bool { return strings.HasPrefix(name, "reduce") || name == "Reduce" })
@@ -971,4 +972,71 @@ func bindExactC09(c *Ctx) {
 		}
 	}
 	c.Floor("C09.bindkinds", n, 5)
+}
+
+// floatModeZeroC09: in float-division mode the evaluator answers a zero
+// divisor with a float, as the folder does.
+func floatModeZeroC09(c *Ctx) {
+	p := c.P
+	c.Rule("C09.floatmode", "in evalBinaryExpr every test of the integer divisor for zero that precedes the IntegerFloatDivision branch returns a float64 (the folder, which always divides integers as floats, answers x / 0 with the float 0): an integer zero there makes the unfolded and the folded expression differ in kind as soon as the quotient feeds further arithmetic")
+	f := p.SSAFunc(p.Method("ValuerEval", "evalBinaryExpr"))
+	if f == nil {
+		c.Unk("C09.floatmode", "(*ValuerEval).evalBinaryExpr", 0, "anchor not found")
+		return
+	}
+	n := 0
+	for _, m := range f.Blocks {
+		ifi, ok := m.Instrs[len(m.Instrs)-1].(*ssa.If)
+		if !ok {
+			continue
+		}
+		if _, fld, ok := fieldRef(ifi.Cond); !ok || fld != "IntegerFloatDivision" {
+			continue
+		}
+		// the float quotient under the mode and its integer divisor
+		var divisor ssa.Value
+		for _, b := range f.Blocks {
+			if b != m.Succs[0] && !(m.Succs[0].Dominates(b) && len(m.Succs[0].Preds) == 1) {
+				continue
+			}
+			for _, in := range b.Instrs {
+				if q, ok := in.(*ssa.BinOp); ok && q.Op == token.QUO {
+					if cv, ok := q.Y.(*ssa.Convert); ok && isIntegerType(cv.X.Type()) {
+						divisor = cv.X
+					}
+				}
+			}
+		}
+		if divisor == nil {
+			continue
+		}
+		n++
+		key := fmt.Sprintf("evalBinaryExpr: float-mode integer division #%d", n)
+		bad := false
+		for d := m.Idom(); d != nil; d = d.Idom() {
+			di, ok := d.Instrs[len(d.Instrs)-1].(*ssa.If)
+			if !ok {
+				continue
+			}
+			bo, ok := di.Cond.(*ssa.BinOp)
+			if !ok || bo.Op != token.EQL || bo.X != divisor {
+				continue
+			}
+			if k, ok := bo.Y.(*ssa.Const); !ok || k.Value == nil || constant.Sign(k.Value) != 0 {
+				continue
+			}
+			if ret, ok := d.Succs[0].Instrs[len(d.Succs[0].Instrs)-1].(*ssa.Return); ok && len(ret.Results) == 1 {
+				if mi, ok := ret.Results[0].(*ssa.MakeInterface); ok {
+					if bt, ok := mi.X.Type().Underlying().(*types.Basic); ok && bt.Info()&types.IsFloat == 0 {
+						bad = true
+						c.Bad("C09.floatmode", key, ret.Pos(), "a zero divisor is answered with "+p.TypeStr(mi.X.Type())+"(0) before the mode is looked at; in float-division mode the folder answers with the float 0")
+					}
+				}
+			}
+		}
+		if !bad {
+			c.OK("C09.floatmode", key, ifi.Pos(), "no integer answer for a zero divisor ahead of the mode test")
+		}
+	}
+	c.Floor("C09.floatmode", n, 1)
 }
